@@ -880,14 +880,18 @@ ComponentPtr flattenComponent(const ComponentEntityPtr &parent, ComponentPtr &co
         // Take a copy of the imported component which will be used to replace the import defined in this model.
         auto importedComponentCopy = importedComponent->clone();
         importedComponentCopy->setName(component->name());
+
+        // Get list of required units from component's variables and math cn elements.
+        // Note: this is done before the components that the importing model
+        //       encapsulates in the import are moved across, since their units
+        //       belong to the importing model, not to the imported one.
+        std::vector<UnitsPtr> requiredUnits = unitsUsed(clonedImportModel, importedComponentCopy);
+
         // Note: adding a component to another one removes it from its current
         //       parent, so we always take the first one that is left.
         while (component->componentCount() > 0) {
             importedComponentCopy->addComponent(component->component(0));
         }
-
-        // Get list of required units from component's variables and math cn elements.
-        std::vector<UnitsPtr> requiredUnits = unitsUsed(clonedImportModel, importedComponentCopy);
 
         std::vector<UnitsPtr> uniqueRequiredUnits;
         StringStringMap aliasedUnitsNames;
